@@ -326,7 +326,7 @@ BEDS = {
     # (CliInputs.twin_records), as the haplotype VCFs of two call sets concatenated, or a multi-allelic record split into
     # several records, do: same CHROM / POS / REF length, different ALTs, hence different SNV positions
     "twins": [("CHR1", 5, 25, "TA1"), ("CHR1", 5, 25, "TA2"), ("CHR1", 5, 25, "TA3"), ("CHR1", 30, 50, "TB1"), ("CHR2", 10, 30, "TC1"),
-              ("CHR2", 10, 30, "TC2"), ("CHR2", 10, 30, "TC3"), ("CHR1", 0, 30, "TD1"), ("CHR1", 0, 30, "TD2")],
+              ("CHR2", 10, 30, "TC2"), ("CHR2", 10, 30, "TC3")],
 }
 MCMC = ["--mcmc-steps", "300", "--mcmc-burn", "100", "--mcmc-seed", "11"]
 CLI_BOOT = "from mchap.application.cli import main; main()"
@@ -699,11 +699,13 @@ def cli_collect(wd, quick, seed):
                 # round-robin over the intervals: no two records of one interval are neighbours
                 inter = [v[j] for j in range(depth) for v in groups_.values() if j < len(v)]
                 if prog == "assemble":
-                    add(prog, ds, 3, ident, what="cores")
-                    add(prog, ds, 2, rev, what="reversed")
+                    add(prog, ds, 3, rev, what="reversed")
+                    if not quick:
+                        add(prog, ds, 2, ident, what="cores")
                 else:
                     add(prog, ds, 1, ident, what="reference")
-                    add(prog, ds, 3, ident, what="cores")
+                    if prog == "call" or not quick:
+                        add(prog, ds, 3, ident, what="cores")
                     add(prog, ds, 1, rev, what="reversed")
                     add(prog, ds, 2, inter, what="permuted")
                     # without the first record of every shared interval (the further ones list equally many SNVs)
@@ -712,7 +714,8 @@ def cli_collect(wd, quick, seed):
                     # one record of every interval (the j-th of those that have one): each on its own
                     for j in range(depth):
                         add(prog, ds, 1 if j % 2 else 2, [v[j] for v in groups_.values() if j < len(v)], what="subset")
-                    add(prog, ds, 2, ident, what="cores")
+                    if prog != "assemble":
+                        add(prog, ds, 2, ident, what="cores")
                     add(prog, ds, 5, ident, what="cores")
                     add(prog, ds, 1, ident, what="repeat")
                     add(prog, ds, 2, rev, what="reversed")
@@ -766,12 +769,15 @@ def cli_collect(wd, quick, seed):
     # reference runs of the call programs first (they warm the rest of the numba cache), then everything else
     refs = [r for r in plan if r["what"] == "reference"]
     rest = [r for r in plan if r["what"] != "reference"]
-    for batch in (refs, rest):
+    stages = {"assemble references": round(time.time() - t_start, 1)}
+    for label, batch in (("call references", refs), ("rest", rest)):
+        t_b = time.time()
         with ThreadPoolExecutor(max_workers=nthreads) as ex:
             for r, res in zip(batch, ex.map(lambda r: cli_run(r["prog"], r["args"], timeout), batch)):
                 r.update(res)
+        stages[label] = round(time.time() - t_b, 1)
     allruns = stage1 + refs + rest
-    return {"allruns": allruns, "gids": gids, "progs": progs, "wall": round(time.time() - t_start, 1)}
+    return {"allruns": allruns, "gids": gids, "progs": progs, "wall": round(time.time() - t_start, 1), "stages": stages}
 
 
 def cli_validate(ck, data, lap):
@@ -812,7 +818,9 @@ def cli_validate(ck, data, lap):
     ck.note("cli_runs", {"runs": len(allruns), "rejected": len(rejected), "with_failing_locus": sum(1 for r in allruns if r["fail"]),
                          "distinct_locus_lines": cons[0]["lines"], "groups": cons[0]["groups"],
                          "by_program": {p: sum(1 for r in allruns if r["prog"] == p) for p in progs},
-                         "max_wall_s": round(max(r["wall"] for r in allruns), 1)})
+                         "max_wall_s": round(max(r["wall"] for r in allruns), 1),
+                         "run_wall_s_by_dataset": {ds: round(sum(r["wall"] for r in allruns if r["ds"] == ds), 1) for ds in BEDS},
+                         "stages_wall_s": data.get("stages")})
     # the regime "records that span the same interval but list different variants": measured by the trace spec from
     # MultiCore's block split; every call program must have been run with such records next to each other in one process
     # and with the same records apart (the deciding clause is LineIdenticalAcrossRuns)
